@@ -241,8 +241,48 @@ fn mpq_seed(label: String, bytes: Vec<u8>) -> Seed {
     s
 }
 
+/// The builder stores the HET position in the header's BET slot and vice versa (see C04's finding), and the reader
+/// then skips the BET table ("BET offset points to HET table"), so BetTable::read is never reached from builder
+/// output. These seeds are builder archives whose two header slots (and, for V4, the two size slots) are exchanged
+/// by hand so that both tables load; they are only used if `Archive::open` then reports both tables present.
+fn unswapped_hetbet_archives(ctx: &SeedCtx, built: &[(String, Vec<u8>)]) -> Vec<(String, Vec<u8>)> {
+    let mut out = Vec::new();
+    for (label, bytes) in built {
+        if !(label == "mpq/v3-plain-zlib" || label == "mpq/v4-plain-zlib") || bytes.len() < 208 {
+            continue;
+        }
+        // try "positions and V4 sizes exchanged" first, then "positions only"
+        for swap_sizes in [true, false] {
+            let mut b = bytes.clone();
+            let (bet, het) = (rd64(&b, 52), rd64(&b, 60));
+            b[52..60].copy_from_slice(&het.to_le_bytes());
+            b[60..68].copy_from_slice(&bet.to_le_bytes());
+            if swap_sizes && rd16(&b, 12) >= 3 {
+                let (hs, bs) = (rd64(&b, 92), rd64(&b, 100));
+                b[92..100].copy_from_slice(&bs.to_le_bytes());
+                b[100..108].copy_from_slice(&hs.to_le_bytes());
+            }
+            let path = ctx.scratch.join("c05-seed-unswap.mpq");
+            let mut ok = false;
+            if std::fs::write(&path, &b).is_ok() {
+                if let Ok(ar) = Archive::open(&path) {
+                    ok = ar.het_table().is_some() && ar.bet_table().is_some();
+                }
+            }
+            let _ = std::fs::remove_file(&path);
+            if ok {
+                out.push((format!("{label}-hetbet-unswapped"), b));
+                break;
+            }
+        }
+    }
+    out
+}
+
 fn mpq_seeds(ctx: &SeedCtx) -> Vec<Seed> {
     let mut all = builder_seed_archives(ctx);
+    let extra = unswapped_hetbet_archives(ctx, &all);
+    all.extend(extra);
     all.extend(external_seed_archives(ctx));
     all.into_iter().map(|(l, b)| mpq_seed(l, b)).collect()
 }
